@@ -12,8 +12,9 @@ from hypothesis import strategies as st
 BASE = ('SNMPv2-SMI', 'SNMPv2-TC', 'SNMPv2-CONF')
 USER = ('MA-MIB', 'MB-MIB', 'MC-MIB', 'MD-MIB', 'ME-MIB', 'MF-MIB')
 STATUSES = ('compiled', 'untouched', 'failed', 'unprocessed', 'missing', 'borrowed')
-TEXT_OUTCOMES = ('good', 'lex', 'syntax', 'trunc', 'semantic', 'empty', 'comment')
-BAD_TEXT = ('lex', 'syntax', 'trunc', 'semantic')
+TEXT_OUTCOMES = ('good', 'lex', 'syntax', 'trunc', 'semantic', 'semantic2', 'empty', 'comment')
+BAD_TEXT = ('lex', 'syntax', 'trunc', 'semantic', 'semantic2')
+V1_BASE_IMPORT = {'RFC-1212': 'OBJECT-TYPE', 'RFC1155-SMI': 'enterprises', 'RFC-1215': 'TRAP-TYPE'}
 NO_MODULE = ('empty', 'comment')
 
 
@@ -29,7 +30,7 @@ def mib_text(mod, imports, outcome='good', variant=0, extra_modules=()):
         return '-- nothing here\n\n'
     lines = ['%s DEFINITIONS ::= BEGIN' % mod]
     if imports:
-        lines.append('IMPORTS ' + ' '.join('%s FROM %s' % (node_name(i) + 'x', i) for i in imports) + ';')
+        lines.append('IMPORTS ' + ' '.join('%s FROM %s' % (V1_BASE_IMPORT.get(i, node_name(i) + 'x'), i) for i in imports) + ';')
     k = (abs(hash_int(mod)) % 1000) + 1
     lines.append('%s OBJECT IDENTIFIER ::= { 1 3 %d %d }' % (node_name(mod), k, variant))
     if outcome == 'lex':
@@ -38,11 +39,14 @@ def mib_text(mod, imports, outcome='good', variant=0, extra_modules=()):
         lines.append('bad2 OBJECT IDENTIFIER { 1 3 }')
     elif outcome == 'semantic':
         lines.append('%s OBJECT IDENTIFIER ::= { 1 3 %d 99 }' % (node_name(mod), k))
+    elif outcome == 'semantic2':
+        lines.append('Orphan%s ::= NoSuchParentTypeAnywhere' % node_name(mod))
     if outcome != 'trunc':
         lines.append('END')
     text = '\n'.join(lines) + '\n'
-    for name, imps in extra_modules:
-        text += mib_text(name, imps, 'good', variant)
+    for ent in extra_modules:
+        name, imps = ent[0], ent[1]
+        text += mib_text(name, imps, ent[2] if len(ent) > 2 else 'good', variant)
     return text
 
 
@@ -115,9 +119,10 @@ def run(sc, budget=None):
                 text = 'BORROWED<%s>#%d' % (name, self.idx)
                 out.borrow_text[(self.idx, name)] = text
                 return info, text
-            if isinstance(oc, list):     # ['file', canonical module, outcome, [extra modules]]
-                _, canon, toc, extras = oc
-                text = mib_text(canon, imports_of(canon), toc, self.idx, [(e, imports_of(e)) for e in extras])
+            if isinstance(oc, list):     # ['file', canonical module, outcome, [extra modules], outcome of the extras]
+                canon, toc, extras = oc[1], oc[2], oc[3]
+                xoc = oc[4] if len(oc) > 4 else 'good'
+                text = mib_text(canon, imports_of(canon), toc, self.idx, [(e, imports_of(e), xoc) for e in extras])
             else:
                 text = mib_text(name, imports_of(name), oc, self.idx)
             return info, text
@@ -274,6 +279,14 @@ def scenarios(draw, max_user=4, max_sources=3, failures=True, searchers=True, bo
         imports[m] = others
     for b in BASE:
         imports[b] = []
+    v1base = []
+    if draw(st.integers(0, 3)) == 0:
+        v1base = draw(st.lists(st.sampled_from(sorted(V1_BASE_IMPORT)), min_size=1, max_size=2, unique=True))
+        for vb in v1base:
+            imports[vb] = []
+            importer = draw(st.sampled_from(user))
+            imports[importer] = imports[importer] + [vb]
+        universe = universe + v1base
     nsrc = draw(st.integers(1, max_sources))
     sources = [dict() for i in range(nsrc)]
     good_w = ('good', 'good', 'good', 'good', 'absent', 'absent')
@@ -299,7 +312,8 @@ def scenarios(draw, max_user=4, max_sources=3, failures=True, searchers=True, bo
             extras = [x for x in user if x != target][:1]
         i = draw(st.integers(0, nsrc - 1))
         sources[i][alias] = ['file', target, draw(st.sampled_from(('good', 'good', 'good') + (BAD_TEXT if failures else ()))), extras]
-        requested = [alias if r == target else r for r in requested]
+        if draw(st.booleans()):
+            requested = [alias if r == target else r for r in requested]
         if alias not in requested:
             requested.append(alias)
         universe.append(alias)
@@ -308,6 +322,14 @@ def scenarios(draw, max_user=4, max_sources=3, failures=True, searchers=True, bo
             importer = draw(st.sampled_from(user))
             if alias not in imports[importer]:
                 imports[importer] = imports[importer] + [alias]
+    # a file named like its (good) first module that also holds a second module, possibly a broken one
+    if multi_file and n > 1 and draw(st.integers(0, 4)) == 0:
+        first = draw(st.sampled_from(user))
+        second = [x for x in user if x != first][0]
+        i = draw(st.integers(0, nsrc - 1))
+        if sources[i].get(first) == 'good':
+            sources[i][first] = ['file', first, 'good', [second],
+                                 draw(st.sampled_from(('good', 'semantic', 'semantic2') if failures else ('good',)))]
     codegen = {}
     writer = {}
     for m in universe:
@@ -356,7 +378,10 @@ def source_view(sc, name):
     for s in sc['sources']:
         oc = s.get(name, 'absent')
         if isinstance(oc, list):
-            out.append((oc[2], oc[1], list(oc[3])))
+            toc = oc[2]
+            if toc == 'good' and len(oc) > 4 and oc[4] != 'good' and oc[3]:
+                toc = oc[4]    # a broken later module fails the whole file for this source
+            out.append((toc, oc[1], list(oc[3])))
         else:
             out.append((oc, name, []))
     return out
